@@ -1,5 +1,5 @@
 """C14 - traversal visits every node once, in source order, consistently across APIs."""
-from contracts import k_traverse
+from contracts import k_traverse, k_scope
 from pyvc.contract import verify_all
 from pyvc import native
 
@@ -15,7 +15,7 @@ def run(rep, tier, seed):
     if v2['n_bad'] or v2['nodes'] < 20:
         rep.checker_error(f'rank tables disagree with CPython positions: {v2}')
     verify_all(rep, specs + k_traverse.special_specs('C14') + k_traverse.soc_specs('C14') +
-               k_traverse.merge_specs('C14'))
+               k_traverse.merge_specs('C14') + k_scope.specs('C14'))
     rep.extra['not_proved'] = notes
     k_traverse.all_param_finite(rep, 'C14')
     rep.trusted.append('ORDER table (syntactic field order per AST class) written from the grammar; validated against '
